@@ -495,7 +495,7 @@ class AsyncPettingZooVecEnv(PettingZooVecEnv):
             if i == num_errors - 1:
                 logger.error("Raising the last exception back to the main process.")
                 self._state = AsyncState.DEFAULT
-                raise exctype(value)
+                raise value
 
     def _assert_is_running(self) -> None:
         if self.closed:
